@@ -37,6 +37,7 @@ def fns_of(F, prefix):
 
 def run(ctx):
     F = ctx.facts
+    r17_5(ctx)
     vec_pub, txn_pub = c05.publication_fns(F)
     # role: the EntryIndex function that re-tags Borrowed as Owned
     make_owned = []
@@ -238,3 +239,29 @@ def r17_3(ctx, fam, cont, entry_fns, entries_fns, make_owned, plain_read, entry_
         item_ok = all(contains(b.expr_of_op(t["args"][1]), lambda x: x[0] == "call" and x[4] == (nblk, len(b.blocks[nblk]["stmts"]))) for _, t in fcalls)
         ctx.verdict(not leaves and not skips and item_ok, "R17.3", f, "for_each-loop", b.line_at((nblk, 10 ** 6)), "while let Some(e) = next() { f(e) } with no other exit",
                     "for_each %s" % ("can leave the loop before next() returned None" if leaves else "can skip calling f for an entry" if skips else "does not pass the yielded entry to f"))
+
+
+def r17_5(ctx):
+    """the mutators panic exactly where a plain vector does (out-of-range insert / set / remove / entry): apart from those
+    documented panics and imbl's own, a mutator contains no panic source of its own in any feature configuration - no
+    arithmetic-overflow or bounds assertion (e.g. `len - n` in a log line for a no-op truncate). Expected count 0."""
+    F = ctx.facts
+    n = 0
+    bad = 0
+    for f in F.find(crate=IM):
+        st = f.raw.get("self_ty") or ""
+        if not f.built or f.raw.get("impl_trait") or not (st.startswith("vector::ObservableVector<") or st.startswith("vector::transaction::ObservableVectorTransaction<")):
+            continue
+        if f.vis != "pub":
+            continue
+        b = inl(F, f) or f.built
+        n += 1
+        for blk in sorted(b.reachable()):
+            t = b.term(blk)
+            if t["k"] == "assert":
+                bad += 1
+                ctx.violated("R17.5", f, "no-own-panic", b.line_at((blk, 10 ** 6)),
+                             "`%s` contains a checked arithmetic / bounds assertion (%s): it can panic where the same call on a plain vector does not (e.g. a truncate to more than the current length, a pop on an empty vector)" % (f.path, str(t.get("msg", ""))[:60]))
+                break
+    if not bad:
+        ctx.holds("R17.5", None, "no-own-panic", None, "%d public mutators / accessors of the vector and the transaction: no arithmetic or bounds assertion of their own" % n)
